@@ -249,4 +249,19 @@ C04_DocsP  == SetToSeq(C04_P1) \o SetToSeq(C04_P2) \o SetToSeq(C04_P3)
 C04_RangeP == << <<1, Cardinality(C04_P1)>>, <<Cardinality(C04_P1) + 1, Cardinality(C04_P1) + Cardinality(C04_P2)>>,
                  <<Cardinality(C04_P1) + Cardinality(C04_P2) + 1, Cardinality(C04_P1) + Cardinality(C04_P2) + Cardinality(C04_P3)>> >>
 
+\* C06 (a file named more than once in one build): a small set of documents with overlapping keys, ANY document at ANY
+\* stage (WholeRange), so that sequences d, e, d occur
+C06_KB == SKey("b")  C06_KC == SKey("c")
+C06_M(items) == SD("dict", NoVal, items)
+C06_DocsRepSet ==
+    {C06_M(<<<<C04_KA, C04_L(C04_V1)>>, <<C06_KB, C04_L(C04_V1)>>>>),
+     C06_M(<<<<C06_KB, C04_L(C04_V2)>>, <<C06_KC, C04_L(C04_V2)>>>>),
+     C06_M(<<<<C04_KA, C06_M(<<<<SKey("x"), C04_L(C04_V1)>>, <<SKey("y"), C04_L(C04_V1)>>>>)>>>>),
+     C06_M(<<<<C04_KA, C06_M(<<<<SKey("y"), C04_L(C04_V2)>>>>)>>, <<C06_KB, SD("list", NoVal, <<<<IKey(0), C04_L(C04_V1)>>, <<IKey(1), C04_L(C04_V3)>>>>)>>>>),
+     C06_M(<<<<C06_KB, WithTag(SD("list", NoVal, <<<<IKey(0), C04_L(C04_V2)>>>>), "merge")>>>>),
+     C06_M(<<<<C04_KA, WithTag(C06_M(<<<<SKey("z"), C04_L(C04_V4)>>>>), "del")>>>>),
+     C06_M(<<<<C04_KA, WithTag(C04_L(C04_V4), "weak")>>, <<C06_KC, C04_L(C04_V4)>>>>),
+     C06_M(<<<<C06_KB, SD("list", NoVal, <<<<IKey(0), C04_L(C04_V4)>>>>)>>>>)}
+C06_DocsRep == SetToSeq(C06_DocsRepSet)
+
 =============================================================================
